@@ -23,7 +23,8 @@ TInt == /\ Ev.e = "int"
            ELSE Chk(Ev.rc = w.rc /\ (w.rc = "ECONF_SUCCESS" => Ev.neg = w.neg /\ Norm(Ev.mag) = w.mag), w)
 TNoValue == Ev.e = "novalue" /\ Chk(Ev.T \in Numeric => Ev.rc # "ECONF_SUCCESS", [rc |-> "an error code"])
 TBool == /\ Ev.e = "bool"
-         /\ LET w == BoolMeaning(Ev.text) IN Chk((Ev.rc = "ECONF_SUCCESS") = (w.rc = "ok") /\ (w.rc = "ok" => Ev.v = w.v), w)
+         \* (assigned: on success the caller's variable was written - it held neither true nor false before the call)
+         /\ LET w == BoolMeaning(Ev.text) IN Chk((Ev.rc = "ECONF_SUCCESS") = (w.rc = "ok") /\ (w.rc = "ok" => Ev.v = w.v /\ Ev.assigned), w)
 TBoolSweep == /\ Ev.e = "boolsweep"
               /\ LET legal == {s \in LegalBool : Len(s) <= Ev.maxlen /\ \A i \in 1..Len(s) : InStr(s[i], Ev.alphabet)}
                      want == {[s |-> s, v |-> BoolMeaning(s).v] : s \in legal} IN
